@@ -223,3 +223,51 @@ MUTANTS += [
     m("c07-fieldpad-axis", ["C07"], F, "d[self.mesh.region._dim2index(key)] = value", "d[self.mesh.region.ndim - 1 - self.mesh.region._dim2index(key)] = value"),
     m("c07-assemble-index", ["C07"], U, "    index = [value] * n\n", "    index = [value] * (n - 1)\n"),
 ]
+
+MUTANTS += [
+    # ------------------------------------------------------------------ C10
+    m("c10-attrs-drop-units", ["C10"], H5, '_h5_attrs = ("pmin", "pmax", "dims", "ndim", "units", "tolerance_factor")', '_h5_attrs = ("pmin", "pmax", "dims", "ndim", "tolerance_factor")'),
+    m("c10-mesh-drop-bc", ["C10"], H5, 'for attr in ["n", "bc"]:', 'for attr in ["n"]:'),
+    m("c10-mesh-load-no-bc", ["C10"], H5, '            bc=h5_mesh.attrs["bc"],\n', ""),
+    m("c10-subregion-dtype", ["C10"], H5, "dtype=np.result_type(\n                    *(p for sr in self.subregions.values() for p in (sr.pmin, sr.pmax))\n                ),", "dtype=self.region.pmin.dtype,"),
+    m("c10-subregion-row-order", ["C10"], H5, "h5_mesh_subregions[i] = [*subregion.pmin, *subregion.pmax]", "h5_mesh_subregions[i] = [*subregion.pmax, *subregion.pmin]"),
+    m("c10-subregion-split", ["C10"], H5, "p1=data[: region.ndim], p2=data[region.ndim :]", "p1=data[: region.ndim], p2=data[region.ndim - 1 :]"),
+    m("c10-unit-not-decoded", ["C10"], H5, '        if unit == "None":\n            unit = None\n', ""),
+    m("c10-vdims-sentinel-mismatch", ["C10"], H5, 'if isinstance(vdims, str) and vdims == "None":', 'if isinstance(vdims, str) and vdims == "none":'),
+    m("c10-array-dtype-float", ["C10"], H5, '"array", data_shape, dtype=self.array.dtype', '"array", data_shape, dtype=float'),
+    m("c10-legacy-dim-kw", ["C10"], H5, "return cls(mesh, nvdim=dim, value=array[:])", "return cls(mesh, dim=dim, value=array[:])"),
+    m("c10-legacy-never", ["C10"], H5, 'if "ubermag-hdf5-file-version" not in f.attrs:', 'if "ubermag-hdf5-file-version" in f.attrs and False:'),
+    m("c10-load-no-vdims", ["C10"], H5, "            vdims=vdims,\n            unit=unit,", "            unit=unit,"),
+    m("c10-key-mismatch", ["C10"], H5, 'value=h5_field["array"][data_location],', 'value=h5_field["data"][data_location],'),
+    m("c10-region-kw-unchecked", ["C10"], R, "if not all(np.asarray(pmin) < np.asarray(pmax)):", "if not all(np.asarray(pmin) <= np.asarray(pmax)):"),
+    m("c10-names-from-values", ["C10"], H5, 'h5_mesh.create_dataset("subregion_names", data=list(self.subregions.keys()))', 'h5_mesh.create_dataset("subregion_names", data=sorted(self.subregions.keys()))'),
+]
+
+MUTANTS += [
+    # ------------------------------------------------------------------ C09
+    m("c09-header-ymin-axis", ["C09"], OVF, "# ymin: {self.mesh.region.pmin[1]}", "# ymin: {self.mesh.region.pmin[0]}"),
+    m("c09-header-xbase", ["C09"], OVF, "# xbase: {self.mesh.region.pmin[0] + self.mesh.cell[0]/2}", "# xbase: {self.mesh.region.pmin[0]}"),
+    m("c09-header-znodes", ["C09"], OVF, "# znodes: {self.mesh.n[2]}", "# znodes: {self.mesh.n[1]}"),
+    m("c09-header-missing-meshtype", ["C09"], OVF, "            # meshtype: rectangular\n", ""),
+    m("c09-header-valuedim", ["C09"], OVF, "# valuedim: {write_dim}", "# valuedim: {self.nvdim}"),
+    m("c09-writer-perm", ["C09"], OVF, "reordered = self.array.transpose((2, 1, 0, 3))", "reordered = self.array.transpose((1, 2, 0, 3))"),
+    m("c09-reader-perm", ["C09"], OVF, "t_tuple = (2, 1, 0, 3)", "t_tuple = (1, 2, 0, 3)"),
+    m("c09-reader-shape", ["C09"], OVF, 'r_tuple = (*reversed(mesh.n), header["valuedim"])', 'r_tuple = (*mesh.n, header["valuedim"])'),
+    m("c09-check-value-8", ["C09"], OVF, '"bin8": ("<d", 123456789012345.0)', '"bin8": ("<d", 12345678901234.0)'),
+    m("c09-writer-endianness", ["C09"], OVF, '"bin4": ("<f", 1234567.0)', '"bin4": (">f", 1234567.0)'),
+    m("c09-reader-endianness", ["C09"], OVF, "format = f'{\"<\" if ovf_v2 else \">\"}{\"d\" if nbytes == 8 else \"f\"}'", "format = f'{\"<\"}{\"d\" if nbytes == 8 else \"f\"}'"),
+    m("c09-check-not-enforced", ["C09"], OVF, "if nbytes not in (4, 8) or test_value != check[nbytes]:", "if nbytes not in (4, 8):"),
+    m("c09-check-after-read", ["C09"], OVF, "if nbytes not in (4, 8) or test_value != check[nbytes]:", "if nbytes not in (4, 8) and test_value != check[nbytes]:"),
+    m("c09-chunk-floor", ["C09"], OVF, "n_chunks = math.ceil(len(reordered.flat) / chunksize)", "n_chunks = math.floor(len(reordered.flat) / chunksize)"),
+    m("c09-chunk-overlap", ["C09"], OVF, "reordered.flat[i * chunksize : (i + 1) * chunksize]", "reordered.flat[i * chunksize : (i + 1) * chunksize + 1]"),
+    m("c09-unit-not-decoded", ["C09"], OVF, '                if unit == "None":  # written for fields without unit\n                    unit = None\n', ""),
+    m("c09-label-split", ["C09"], OVF, 'comp = comp.split("_", 1)[1] if "_" in comp else comp', 'comp = comp.split("_")[1] if "_" in comp else comp'),
+    m("c09-extend-unqualified", ["C09"], OVF, "        extend_scalar = extend_scalar and self.nvdim == 1\n        write_dim = 3 if extend_scalar else self.nvdim", "        write_dim = 3 if extend_scalar and self.nvdim == 1 else self.nvdim"),
+    m("c09-fromfile-suffix", ["C09"], IO, 'if filename.suffix in [".omf", ".ovf", ".ohf", ".oef"]:', 'if filename.suffix in [".omf", ".ovf", ".oef"]:'),
+    m("c09-sidecar-always", ["C09"], OVF, "if save_subregions and self.mesh.subregions:", "if save_subregions or self.mesh.subregions:"),
+    m("c09-sidecar-not-loaded", ["C09"], OVF, "        with contextlib.suppress(FileNotFoundError):\n            mesh.load_subregions(filename)\n", "        pass\n"),
+    m("c09-ovf1-valuedim", ["C09"], OVF, 'header["valuedim"] = int(header["valuedim"]) if ovf_v2 else 3', 'header["valuedim"] = int(header["valuedim"]) if ovf_v2 else 1'),
+    m("c09-count", ["C09"], OVF, 'count=int(nodes * header["valuedim"])', 'count=int(nodes)'),
+    m("c09-repr-word", ["C09"], OVF, 'repr_string = "Binary 4"', 'repr_string = "Binary4"'),
+    m("c09-labels-dropped", ["C09"], OVF, "            vdims=vdims,\n            unit=unit,\n        )", "            unit=unit,\n        )"),
+]
